@@ -176,3 +176,55 @@ func C15_Targets() {
 	}
 	verif.Reach("returned")
 }
+
+// C15_Preloaded: a target that already holds values: zero values from the
+// block must overwrite them; an empty slice binding still validates its
+// target.
+func C15_Preloaded() {
+	switch verif.Choice("case", 3) {
+	case 0:
+		t := TOdd{Count: 5, Text: "old", Flag: true, Float: 2.5}
+		kind := verif.Choice("kind", 4)
+		key := []string{"count", "float", "text", "flag"}[kind]
+		var val any
+		switch kind {
+		case 0:
+			val = verif.Int("v")
+		case 1:
+			val = verif.Float64("v")
+		case 2:
+			val = verif.String("v", verif.Choice("len", 2))
+		default:
+			val = verif.Bool("v")
+		}
+		err := bcl.Bind(&t, bcl.StructBinding{Value: bcl.Block{Type: "todd", Fields: map[string]any{key: val}}})
+		verif.Assert(err == nil, "bind succeeds")
+		ok := false
+		switch kind {
+		case 0:
+			ok = t.Count == val.(int)
+		case 1:
+			ok = sameFloat(t.Float, val.(float64))
+		case 2:
+			ok = t.Text == val.(string)
+		default:
+			ok = t.Flag == val.(bool)
+		}
+		verif.Assert(ok, "the value (zero included) replaces what the target held")
+	case 1:
+		empty := bcl.SliceBinding{Value: []bcl.Block{}}
+		var x int
+		var s []int
+		var p *[]TOdd
+		verif.Assert(bcl.Bind(nil, empty) != nil, "nil target rejected for an empty slice binding")
+		verif.Assert(bcl.Bind(x, empty) != nil, "non-pointer target rejected for an empty slice binding")
+		verif.Assert(bcl.Bind(&x, empty) != nil, "pointer to int rejected for an empty slice binding")
+		verif.Assert(bcl.Bind(&s, empty) != nil, "slice of non-structs rejected for an empty slice binding")
+		verif.Assert(bcl.Bind(p, empty) != nil, "nil pointer rejected for an empty slice binding")
+	default:
+		ts := []TOdd{{Name: "old"}}
+		err := bcl.Bind(&ts, bcl.SliceBinding{Value: []bcl.Block{}})
+		verif.Assert(err == nil && len(ts) == 0, "an empty slice binding empties the target")
+	}
+	verif.Reach("returned")
+}
